@@ -17,6 +17,14 @@ CHECKS = {
             "required answer is replayed against the implementation, exhaustively within the bound.",
             "Bounded: sequences of <=4/6 rows over small integers; values exact in floats; negative time queries excluded.",
             "DESIGN.md §4 C20"),
+    "C16": ("TLA+ spec DangerSpace.tla model-checked by TLC (row-by-row scans vs the statement's Admissible); every enumerated "
+            "case replayed into HitResult.danger_space; real calls validated by Trace_DangerSpace (same operator)",
+            "TLC checks that the two-sided scans always end in an admissible (begin,end) pair, are monotone in the height and "
+            "error beyond the trajectory, for all drop sequences of <=5 (thorough <=6) rows; all enumerated cases (on- and "
+            "off-grid ranges) are replayed into the real method and its answer must be in the spec's admissible set; "
+            "danger_space calls on real extra-data trajectories are projected to per-row classifications and validated by the trace spec.",
+            "Bounded sequences over small integer drops; real trajectories are sampled (seeded); boundary classification uses a 1e-9 band.",
+            "DESIGN.md §4 C16"),
 }
 
 NOT_APPLICABLE = {
